@@ -8,6 +8,8 @@ CONSTANTS
   MaxMig = 3
   Serial = FALSE
   Requesters = {1, 2}
+  MCPages <- Pages1
+  SkipZero = FALSE
   AcceptGuard = "handling"
 INVARIANTS TypeOK ContentsCopied NothingElseChanged CompleteOnce OneAtATime RoutedBack InRange AllServed
 CHECK_DEADLOCK FALSE
